@@ -281,6 +281,25 @@ def run(chk, tier):
             if not bad:
                 nread += p["nR"]
     chk.count("X-INIT", nread, ["crypt-grid"])
+    chk.rule("X-AMBIENT", "errno is never read before the call itself has stored to it (the caller's errno is ambient state)")
+    namb = 0
+    for cid, c in sorted(g["res"].items()):
+        for p in c["paths"]:
+            bad = [a for a in p["alarms"] if a["kind"] == "AMBIENT"]
+            for a in bad:
+                chk.fail("X-AMBIENT", "%s@%s:%d" % (g["meta"][cid]["base"], a["fn"], a["line"]), "%s line %d: %s [crypt_rn, %s]" % (a["fn"], a["line"], a["msg"], KO.desc(g, cid)),
+                         "%s:%d" % (a["fn"], a["line"]), {"cell": cid})
+            if not bad:
+                namb += 1
+    chk.count("X-AMBIENT", namb, ["crypt-grid"])
+    from .. import gensalt_grid as GG
+    gg = GG.run(tier)
+    for cid, c in sorted(gg["res"].items()):
+        for p in c["paths"]:
+            for a in p["alarms"]:
+                if a["kind"] == "AMBIENT":
+                    chk.fail("X-AMBIENT", "gensalt@%s:%d" % (a["fn"], a["line"]), "%s line %d: %s [crypt_gensalt_rn, cell %s]" % (a["fn"], a["line"], a["msg"], cid), "%s:%d" % (a["fn"], a["line"]), {"cell": cid})
+    chk.count("X-AMBIENT", sum(len(c["paths"]) for c in gg["res"].values()), ["gensalt-grid"])
     chk.note("crypt_grid", {"cells": g["ncells"], "not_covered": K.UNCOVERED})
     chk.floor("R-FUNNEL", 10)
     chk.floor("R-GLOBALS", 8)
